@@ -1,9 +1,11 @@
 import PallasVerif.Stream
 import PallasVerif.Model.PlutusData
+import PallasVerif.Model.PlutusDataDec
 /-! stream `pdata` (C07). Value tokens in prefix form:
     `C <tag> <any|-> <d|i> <n> V*n` | `M <d|i> <n> (V V)*n` | `A <d|i> <n> V*n` | `I <int>` |
     `U <hex>` | `N <hex>` | `B <hex>`.
-    Ops: `cmp V V`, `rt V`, `dec <hex>`, `decx <hex> V`. -/
+    Ops: `cmp V V`, `rt V`, `dec <hex>`, `decx <hex> V`. Decoding is the byte-level decoder
+    `Dec.decodeBytes` (transcription of the Rust `Decode` impls over minicbor's primitives). -/
 namespace PallasVerif.Streams.Pdata
 open PallasVerif PallasVerif.Cbor PallasVerif.PlutusData
 
@@ -109,15 +111,15 @@ def step (_ : Unit) (toks : List String) : Unit × String :=
       match parseV fuel rest with
       | some (a, []) =>
         let bs := encode a
-        match decode bs with
-        | some d => "ok " ++ Tok.hex bs ++ " " ++ showS d
+        match Dec.decodeBytes bs with
+        | some (d, _) => "ok " ++ Tok.hex bs ++ " " ++ showS d
         | none => "ok " ++ Tok.hex bs ++ " err"
       | _ => "bad-op"
     | "dec" :: h :: _ | "decx" :: h :: _ =>
       match Tok.unhex h with
       | some bs =>
-        match decode bs with
-        | some d => "ok " ++ showS d
+        match Dec.decodeBytes bs with
+        | some (d, _) => "ok " ++ showS d
         | none => "err decode"
       | none => "bad-op"
     | _ => "bad-op"
